@@ -236,6 +236,11 @@ func runC15(t *testing.T, sc pscenario, ch *sched.Chooser) (res sched.Result) {
 							want = ring.ErrPartitionDoesNotExist
 						}
 					}
+					if a.kind == "lc-state" && err != nil && err.Error() == "lifecycler not running" && !wrote {
+						// the schedule let the request arrive before the lifecycler's loop was up (or after it ended): refused
+						// without looking at the ring, nothing written — no clause of the property is concerned
+						want, err = nil, nil
+					}
 					switch {
 					case want != nil && !errors.Is(err, want):
 						sched.Obs(fmt.Sprintf("API-VIOLATION %s(partition %d → %s) on %v returned %v, want %v", a.kind, a.part, a.to, p, err, want))
